@@ -121,6 +121,8 @@ type Exec struct {
 	fsStatDirs     bool
 	fsFaultOps     map[string]bool
 	walkList       []walkEntry
+	fsFiles        map[string]Slice
+	fsFileOrder    []string
 	zipList        []zipEntry
 	gzipLog        []gzipEntry
 	codecHits      int
